@@ -410,7 +410,7 @@ def fam_parse_order_by(sess):
                     seen.setdefault(key, ('ok', ''))
                 else:
                     seen[key] = ('viol', 'parsed as %r, textbook %r' % (got, ref))
-        ex.explore(run, on_path, time_budget=200 if sess.tier == 'quick' else 1200)
+        ex.explore(run, on_path, time_budget=400 if sess.tier == 'quick' else 1200)
     bad = {k: v for k, v in seen.items() if v[0] == 'viol'}
     shapes = {}
     for k, v in bad.items():
